@@ -498,7 +498,7 @@ func runC09(c *core.Case, st *core.CaseStats, rep func(fn, kind string, in, exp,
 		}
 	case "tamper":
 		mode, n, part, pos := argS(c, 0), argI(c, 1), argS(c, 2), argS(c, 3)
-		plain, secret, aad := rb(n), rb(9), rb(4)
+		plain, secret, aad := rb(n), rb(argI(c, 4)), rb(4)
 		in := map[string]interface{}{"mode": mode, "n": n, "part": part, "pos": pos}
 		st.Nontrivial++
 		var raw []byte
